@@ -110,6 +110,7 @@ fn main() {
         "c18" => tokenlevel::c18(&args),
         "c08" => tokenlevel::c08(&args),
         "c19" => tokenlevel::c19(&args),
+        "c19seq" => tokenlevel::c19seq(&args),
         "c13cb" => fragments::c13cb(&args),
         "code" => codecheck::code(&args),
         "replay" => families::replay(&args),
